@@ -53,6 +53,8 @@ STRUCT_RESP = doc("VerifH_CatalogStructure", {"K": 4, "MENU": 3}, {"K": 5, "MENU
 CROSSINC = doc("VerifH_CrossProjectInclude", {"K": 1}, {"K": 2}, stubsets=["location", "vfs-files"])
 MARSHAL = {"pkg": "catalog", "fn": "VerifH_MarshalStable", "quick": {"CROSS": 1}, "thorough": {"CROSS": 1},
            "stubs": {"encoding/json.Marshal": "verifStubJSONMarshal"}, "replay_repeat": 3}
+TAGMARSHAL = {"pkg": "catalog", "fn": "VerifH_TagMarshalRepeat", "quick": {}, "thorough": {},
+              "stubs": {"encoding/json.Marshal": "verifStubJSONMarshalTag"}}
 ATTRIB = doc("VerifH_DiagnosticAttribution", {"K": 3}, {"K": 4}, full_schema_lib=True)
 ANNOT_IN = {"pkg": "catalog", "fn": "VerifH_Annotation", "quick": {"N": 3, "INTERIOR": 1}, "thorough": {"N": 4, "INTERIOR": 1}}
 MSHAPE = {"pkg": "catalog", "fn": "VerifH_MarshalShape", "quick": {}, "thorough": {}, "instances": [{"T": t} for t in range(4)],
@@ -113,7 +115,7 @@ CHECKS = {
  },
  "C03": {
   "title": "Determinism",
-  "harnesses": [
+  "harnesses": [TAGMARSHAL, 
    doc("VerifH_Determinism", {"K": 4, "MENU": 1}, {"K": 5, "MENU": 1}, maporder=True, replay_repeat=30),
    doc("VerifH_Determinism", {"K": 2, "MENU": 0}, {"K": 3, "MENU": 0}, maporder=True, replay_repeat=30),
    {"pkg": "core", "fn": "VerifH_DeterminismUnusedParams", "quick": {}, "thorough": {}, "maporder": True, "replay_repeat": 30},
